@@ -85,3 +85,11 @@ impl<T> Drop for MultiKeyBuffer<'_, T> {
         }
     }
 }
+
+#[cfg(feature = "verif")]
+impl<T> MultiKeyBuffer<'_, T> {
+    /// Verification hook: the keys currently stored in the buffer.
+    pub(crate) fn verif_contents(&self) -> &[KeyCode] {
+        &self.buf[..self.size]
+    }
+}
